@@ -282,6 +282,7 @@ class Function:
         self._parent = None
         self._cfg = None
         self._where = None
+        self.prog = None
 
     def _index(self):
         self._nodes = {}
@@ -395,6 +396,7 @@ class Program:
                 f = Function(raw, u)
                 if f.uid in self.functions:
                     continue
+                f.prog = self
                 self.functions[f.uid] = f
                 self.by_key.setdefault(f.key, []).append(f)
             for k, info in u["callees"].items():
